@@ -226,7 +226,7 @@ def final_comparison(ctx: Ctx):
         site = f"{GEN}::final-comparison::parse_bad_pkts={pbp}"
         bad = None
         try:
-            for delta in range(-9, 10):
+            for delta, flags in [(dl, 3) for dl in range(-9, 10)] + [(dl, fl) for fl in (0, 1, 2) for dl in (-8, -1, 0, 1, 16)]:
                 warned = []
 
                 def parse_stub(selfv, packet, root_container_name=None, delta=delta):
@@ -236,18 +236,19 @@ def final_comparison(ctx: Ctx):
                 it = make_interp(prog, {"XtcePacketDefinition.parse_ccsds_packet": parse_stub,
                                         "space_packet_parser.packets.ccsds_generator": lambda b, **k: b})
                 it.on_event = lambda ev: warned.append(1) if ev[0] == "warn" else None
-                ys = it.call(fi, [model_definition(it, "R"), [raw_packet(b"\x01\x02\x03", apid=9)]],
+                # the accounting does not depend on the sequence flags: a segment parsed on its own is a packet like any other
+                ys = it.call(fi, [model_definition(it, "R"), [raw_packet(b"\x01\x02\x03", apid=9, flags=flags)]],
                              {"parse_bad_pkts": pbp})
                 want_warn = delta != 0
                 want_yield = delta == 0 or pbp
                 if bool(warned) != want_warn or (len(ys) == 1) != want_yield:
-                    bad = (f"definition consumed {delta:+d} bits relative to the packet length: warned={bool(warned)}, "
+                    bad = (f"sequence flags {flags:02b}: definition consumed {delta:+d} bits relative to the packet length: warned={bool(warned)}, "
                            f"yielded={len(ys) == 1}; expected warned={want_warn}, yielded={want_yield}")
                     break
         except (Unsupported, Raised) as e:
             ctx.unknown("R14.3", site, str(e))
             continue
-        ctx.decide(bad is None, "R14.3", site, "19 consumption deltas", bad or "", where=where(fi, fi.node))
+        ctx.decide(bad is None, "R14.3", site, "19 consumption deltas; every sequence-flag value", bad or "", where=where(fi, fi.node))
 
 
 HDR = ('[parameters.Parameter(n, parameter_types.IntegerParameterType(n + "_T", '
@@ -280,6 +281,7 @@ LAYOUTS = {
          'parameters.Parameter("S", parameter_types.StringParameterType("S_T", parameter_types.encodings.StringDataEncoding('
          'dynamic_length_reference="LEN", encoding="US-ASCII")))', _u8("TAIL")],
         lambda u: (None if not u else 8 + u[0] + 8)),
+    "one parameter listed twice (A, B, A)": (["*(lambda a: [a, " + _u8("B") + ", a])(" + _u8("A") + ")"], lambda u: 24),
     "32-bit int after one byte": ([_u8("A"), 'parameters.Parameter("BIG", parameter_types.IntegerParameterType("BIG_T", parameter_types.encodings.IntegerDataEncoding(32, "unsigned")))'],
                                   lambda u: 40),
     "32-bit float after one byte": ([_u8("A"), 'parameters.Parameter("FL", parameter_types.FloatParameterType("FL_T", parameter_types.encodings.FloatDataEncoding(32)))'],
